@@ -22,7 +22,7 @@ Init == p \in Strings /\ k \in Strings
 Next == UNCHANGED <<p, k>>
 Spec == Init /\ [][Next]_<<p, k>>
 
-Agree == Match(p, k) = NFAMatch(p, k)
+Agree == MatchRec(p, k) = NFAMatch(p, k) /\ Match(p, k) = MatchRec(p, k)
 Literal == (\A i \in 1..Len(p) : p[i] \notin {STARB, QMARK}) => (Match(p, k) <=> p = k)
 StarAll == Match(<<STARB>>, k)
 QLen == (\A i \in 1..Len(p) : p[i] = QMARK) => (Match(p, k) <=> Len(k) = Len(p))
